@@ -306,6 +306,9 @@ func parsePluginFromDir(ctx context.Context, path string) (string, string, error
 		// potential candidate, try install the candidate
 		if len(filesWithValidNameFormat) == 1 {
 			candidate := filesWithValidNameFormat[0]
+			if err := validatePluginName(candidatePluginName); err != nil {
+				return "", "", err
+			}
 			if err := setExecutable(candidate); err != nil {
 				return "", "", fmt.Errorf("no plugin executable file was found: %w", err)
 			}
